@@ -195,7 +195,6 @@ Proof.
     unfold dl_due, get_sub. rewrite Hs. exact Hdue.
   - (* Job *)
     destruct j; try contradiction. destruct failed; [contradiction|].
-    apply (proj1 (in_sort_ids _ _)) in W.
     destruct (sweep_legal _ _ _ _ _ _ _ Hl) as [CL _].
     destruct (sweep_due st now min_age max chosen d Hu CL Hd W) as ((s&Hs&Hdue)&_&Hexp&Hat).
     split; [|split; [exact Hexp|split; [apply mem_id_In; exact W|exact Hat]]].
@@ -238,10 +237,10 @@ Proof.
   split; [unfold dl_due; rewrite Hs; exact Hdue|].
   split; [exact Hc|split; [exact Hexp|split; [exact Hat|]]].
   rewrite sweep_post.
-  destruct (sweep_each st (sort_ids chosen) w fr) as [[[st1 fr1] w1] n1] eqn:E.
+  destruct (sweep_each st chosen w fr) as [[[st1 fr1] w1] n1] eqn:E.
   cbn [snd] in SN. subst n1. cbn [fst].
   destruct (sweep_each_completes w _ _ _ _ _ _ E (d_id d)) as (x'&H1&H2&H3).
-  - left. apply in_sort_ids. exact Hm.
+  - left. exact Hm.
   - exists x'. auto.
 Qed.
 
